@@ -64,6 +64,9 @@ Step(S) ==
   \cup {X("{k2: v2 for k2, v2 in " \o W(e, 16) \o ".items()}", e.ty) : e \in {z \in S : z.ref /\ z.ty.k = "dict"}}
   \cup {Xp(W(e, 3) \o " if b else " \o W(e, 2), e.ty, 2) : e \in {z \in S : z.ty.k \in {"int", "str", "list", "C"}}}
   \cup {Xp(W(e, 11) \o " + 1", TInt, 11) : e \in {z \in S : z.ty.k = "int"}}
+  \cup {Xp(W(e, 12) \o " * 2", TInt, 12) : e \in {z \in S : z.ty.k = "int"}}
+  \cup {Xp(W(e, 12) \o " % 3", TInt, 12) : e \in {z \in S : z.ty.k = "int"}}
+  \cup {Xp(W(e, 11) \o " - x", TFloat, 11) : e \in {z \in S : z.ty.k \in {"int", "float"}}}
   \cup {Xp(W(e, 12) \o " * x", TFloat, 12) : e \in {z \in S : z.ty.k \in {"int", "float"}}}
   \cup {Xp(W(e, 12) \o " / 2", TFloat, 12) : e \in {z \in S : z.ty.k = "int"}}
   \cup {Xp(W(e, 11) \o " + 'z'", TStr, 11) : e \in {z \in S : z.ty.k = "str"}}
